@@ -122,7 +122,7 @@ Definition check (c : c13case) : verdict :=
          spec_ok := negb wf || (charts_close tol (map (rate_spec by_) src) out && frames2_eqb sb sa);
          wf_ok := wf |}
   | CPreview tol by_ before after =>
-      {| corr_ok := q_close tol (py_div before by_) after;
+      {| corr_ok := q_close tol (osu_preview_rate by_ before) after;
          spec_ok := preview_strict_close tol by_ before after;
          wf_ok := Qlt_bool 0 by_ |}
   | CSame tol a b =>
